@@ -519,11 +519,13 @@ type c07Embedded struct {
 type c07T4 struct {
 	c07Embedded
 	*c07Inner
-	Arr  [3]int                    `jwt:"arr"`
-	Ch   chan int                  `jwt:"ch"`
-	Fn   func()                    `jwt:"fn"`
-	St   struct{ A int `jwt:"a"` } `jwt:"st"`
-	Err  error                     `jwt:"err"`
+	Arr [3]int   `jwt:"arr"`
+	Ch  chan int `jwt:"ch"`
+	Fn  func()   `jwt:"fn"`
+	St  struct {
+		A int `jwt:"a"`
+	} `jwt:"st"`
+	Err  error                                        `jwt:"err"`
 	Deep map[string]map[string][]map[string]*c07Inner `jwt:"deep"`
 }
 
